@@ -4,8 +4,10 @@
 // sharded map / LRU caches answer every request exactly as the unsharded
 // structures do (capacity aside).
 //
-// Concurrent use of the sharded map and of the index functions is in
-// c17_conc.go. The lock clause is covered as far as routing goes by
+// Concurrent use of the sharded containers and of the index functions is in
+// c17_conc.go (disjoint keys per goroutine) and c17_shared.go (shared keys and
+// bystanders); absolute known answers (the same index in every process) in
+// c17_known.go. The lock clause is covered as far as routing goes by
 // c17_lock.go (every key can be held and released through every constructor,
 // the sharded structures keep the entries the unsharded ones keep); blocking,
 // exclusion and fairness of the lock and semaphore variants are decided by
@@ -458,6 +460,24 @@ func ExecIndex(c CaseIndex) *vkit.Result {
 	}
 	type obs struct{ simple, xhash int }
 	first := make([]obs, len(c.Keys))
+	// retention: ToBytes is exported and hands a byte slice to its caller; the
+	// slices of earlier keys are kept, re-read after later calls and compared with
+	// the copy taken when they were returned (the library must not write to a
+	// slice it has handed out).
+	type keptBytes struct {
+		key       int
+		got, copy []byte
+	}
+	var kept []keptBytes
+	checkKept := func(when string) bool {
+		for _, kb := range kept {
+			if string(kb.got) != string(kb.copy) {
+				res.Failf("ToBytes/retained", "%d shards: the slice ToBytes(%v) returned read %x when it was returned and reads %x %s (keys of the case: %v)", n, c.Keys[kb.key], kb.copy, kb.got, when, c.Keys)
+				return false
+			}
+		}
+		return true
+	}
 	valid := make([]bool, len(c.Keys))
 	shardsSeen := map[int][]int{}
 	for i, k := range c.Keys {
@@ -506,7 +526,15 @@ func ExecIndex(c CaseIndex) *vkit.Result {
 			if want := refIndex(n, h); x != want {
 				return res.Failf("XHashIndex/partition", "XHashIndex(%v) with %d shards = %d, but its hash %d lies in part %d of the documented partition", k, n, x, h, want)
 			}
+			b := remap.ToBytes(v)
+			kept = append(kept, keptBytes{i, b, append([]byte(nil), b...)})
+			if len(kept) >= 2 {
+				res.Class("ToBytes-results-retained-across-calls")
+			}
 		}
+	}
+	if !checkKept("after the index functions and ToBytes were called on the later keys") {
+		return res
 	}
 	// stability: the same answers after all the other keys have been looked up
 	for i, k := range c.Keys {
@@ -522,6 +550,9 @@ func ExecIndex(c CaseIndex) *vkit.Result {
 				return res.Failf("XHashIndex/unstable", "XHashIndex(%v) with %d shards = %d, later %d", k, n, first[i].xhash, x)
 			}
 		}
+	}
+	if !checkKept("after all keys were routed a second time") {
+		return res
 	}
 	for _, idx := range shardsSeen {
 		if len(idx) >= 2 {
@@ -801,6 +832,9 @@ type Op struct {
 	// type, "same" the identical value the key holds already (the int V if it
 	// holds none).
 	VK string `json:"vk,omitempty"`
+	// I is the container the call goes to: 0 the first one, j the j-th of
+	// CaseHist.More (the first one while that one is not built yet).
+	I int `json:"i,omitempty"`
 }
 
 const (
@@ -811,7 +845,8 @@ const (
 	VKSame  = "same"
 )
 
-// opValue builds the value of a Set on the map family.
+// opValue builds the value of a Set on the map family and on tiny.LRU (both
+// take any interface{}).
 func opValue(op Op) interface{} {
 	switch op.VK {
 	case VKNil:
@@ -869,15 +904,58 @@ type CaseHist struct {
 	XHash  bool   `json:"xhash"`
 	Keys   []Key  `json:"keys"`
 	Ops    []Op   `json:"ops"`
+	// More: further sharded containers of the same family (each with an unsharded
+	// twin of its own) that are built in the middle of the history and used
+	// interleaved with the first one. Containers are independent objects: building
+	// or using one must not change what another one answers.
+	More []Inst `json:"more,omitempty"`
+}
+
+// Inst is one further container of a history: built immediately before
+// operation number At (before the final sweep if At is beyond the last one).
+type Inst struct {
+	Shards uint64 `json:"shards"`
+	XHash  bool   `json:"xhash"`
+	At     int    `json:"at"`
+}
+
+// genMore draws 0 (mostly), 1 or 2 further instances with small shard counts.
+func genMore(t *rapid.T, nops int) []Inst {
+	var more []Inst
+	cnt := 0
+	switch k := rapid.IntRange(0, 11).Draw(t, "instances"); {
+	case k >= 11:
+		cnt = 2
+	case k >= 7:
+		cnt = 1
+	}
+	for j := 0; j < cnt; j++ {
+		in := Inst{XHash: rapid.Bool().Draw(t, "xhash2"), At: rapid.IntRange(0, nops).Draw(t, "builtAt")}
+		if rapid.IntRange(0, 3).Draw(t, "shards2Kind") == 0 {
+			in.Shards = uint64(rapid.IntRange(1, 512).Draw(t, "shards2Any"))
+		} else {
+			in.Shards = rapid.SampledFrom(designShards[:len(designShards)-1]).Draw(t, "shards2")
+		}
+		more = append(more, in)
+	}
+	return more
 }
 
 func genHist(t *rapid.T, lru bool) CaseHist {
 	n := genShards(t, true)
 	c := CaseHist{Shards: n, XHash: rapid.Bool().Draw(t, "xhash")}
-	c.Keys = genKeys(t, n, 2, 8, false, !c.XHash)
 	nops := rapid.IntRange(5, 40).Draw(t, "nops")
+	c.More = genMore(t, nops)
+	hitOK := !c.XHash
+	for _, in := range c.More {
+		hitOK = hitOK && !in.XHash
+	}
+	c.Keys = genKeys(t, n, 2, 8, false, hitOK)
 	for i := 0; i < nops; i++ {
 		op := Op{K: rapid.IntRange(0, len(c.Keys)-1).Draw(t, "k")}
+		if len(c.More) > 0 {
+			op.I = rapid.IntRange(0, len(c.More)).Draw(t, "inst")
+		}
 		w := rapid.IntRange(0, 19).Draw(t, "opkind")
 		switch {
 		case w < 7:
@@ -885,10 +963,9 @@ func genHist(t *rapid.T, lru bool) CaseHist {
 			op.V = rapid.IntRange(0, 5).Draw(t, "v")
 			if lru {
 				op.Sz = rapid.IntRange(0, 3).Draw(t, "sz")
-			} else {
-				// the plain int comes first: shrinking moves towards it
-				op.VK = rapid.SampledFrom([]string{"", "", "", "", "", "", VKNil, VKZero, VKSlice, VKMap, VKSame, VKSame}).Draw(t, "vkind")
 			}
+			// the plain int comes first: shrinking moves towards it
+			op.VK = rapid.SampledFrom([]string{"", "", "", "", "", "", VKNil, VKZero, VKSlice, VKMap, VKSame, VKSame}).Draw(t, "vkind")
 		case w < 12:
 			op.Kind = OpGet
 		case w < 15:
@@ -910,7 +987,7 @@ func GenHistLRU(t *rapid.T) CaseHist { return genHist(t, true) }
 // (existed, hasResult).
 type store interface {
 	Set(k interface{}, v, sz int)
-	SetVal(k interface{}, val interface{}) bool // false: the family stores sized ints only
+	SetVal(k interface{}, val interface{}) bool // false: the family cannot store this value
 	Get(k interface{}) (interface{}, bool)
 	Peek(k interface{}) (interface{}, bool, bool) // third: supported
 	Exist(k interface{}) bool
@@ -933,10 +1010,74 @@ type sized struct{ V, Sz int }
 
 func (s sized) Size() int { return s.Sz }
 
+// The other implementers of cache.Value the sized cache is given: a pointer
+// type whose nil pointer is a usable value (the nil interface itself is
+// outside the cache's domain - it calls Size() on every value), uncomparable
+// slice and map types, an empty struct.
+type pSized struct{ V, Sz int }
+
+func (p *pSized) Size() int {
+	if p == nil {
+		return 0
+	}
+	return p.Sz
+}
+
+type sliceVal []int
+
+func (s sliceVal) Size() int { return len(s) }
+
+type mapVal map[string]int
+
+func (m mapVal) Size() int { return len(m) }
+
+type emptyVal struct{}
+
+func (emptyVal) Size() int { return 0 }
+
+// lruOpValue builds the value of a Set on the sized cache (see opValue).
+func lruOpValue(op Op) interface{} {
+	switch op.VK {
+	case VKNil:
+		return (*pSized)(nil)
+	case VKZero:
+		switch op.V % 3 {
+		case 0:
+			return sized{}
+		case 1:
+			return emptyVal{}
+		default:
+			return &pSized{}
+		}
+	case VKSlice:
+		if op.V == 0 {
+			return sliceVal(nil)
+		}
+		return sliceVal{op.V}
+	case VKMap:
+		return mapVal{"v": op.V}
+	}
+	return sized{op.V, op.Sz}
+}
+
+func isNilPointer(v interface{}) bool {
+	if v == nil {
+		return false
+	}
+	rv := reflect.ValueOf(v)
+	return rv.Kind() == reflect.Ptr && rv.IsNil()
+}
+
 type lruStore struct{ l cache.LRUFacade }
 
-func (s lruStore) Set(k interface{}, v, sz int)   { s.l.Set(k, sized{v, sz}) }
-func (s lruStore) SetVal(k, val interface{}) bool { return false }
+func (s lruStore) Set(k interface{}, v, sz int) { s.l.Set(k, sized{v, sz}) }
+func (s lruStore) SetVal(k, val interface{}) bool {
+	v, ok := val.(cache.Value)
+	if ok {
+		s.l.Set(k, v)
+	}
+	return ok
+}
 func (s lruStore) Get(k interface{}) (interface{}, bool) {
 	v, ok := s.l.Get(k)
 	return unwrap(v), ok
@@ -958,7 +1099,7 @@ func unwrap(v cache.Value) interface{} {
 type tinyStore struct{ l tiny.LRU }
 
 func (s tinyStore) Set(k interface{}, v, sz int)          { s.l.Set(k, sized{v, sz}) }
-func (s tinyStore) SetVal(k, val interface{}) bool        { return false }
+func (s tinyStore) SetVal(k, val interface{}) bool        { s.l.Set(k, val); return true }
 func (s tinyStore) Get(k interface{}) (interface{}, bool) { return s.l.Get(k) }
 func (s tinyStore) Peek(k interface{}) (interface{}, bool, bool) {
 	v, ok := s.l.Peek(k)
@@ -972,25 +1113,26 @@ func (s tinyStore) Delete(k interface{}) (bool, bool) { return s.l.Delete(k), tr
 const hugeCapacity = int64(1) << 40
 
 type family struct {
-	name string // site prefix
-	mk   func(n uint64, xhash bool) (wide, single store)
+	name  string // site prefix
+	value func(op Op) interface{}
+	mk    func(n uint64, xhash bool) (wide, single store)
 }
 
-var famMap = family{"WideMap", func(n uint64, xh bool) (store, store) {
+var famMap = family{"WideMap", opValue, func(n uint64, xh bool) (store, store) {
 	if xh {
 		return mapStore{cache.NewWideXHashMap(remap.WithPrime(n))}, mapStore{cache.NewSingleMap()}
 	}
 	return mapStore{cache.NewWideMap(remap.WithPrime(n))}, mapStore{cache.NewSingleMap()}
 }}
 
-var famLRU = family{"WideLRUCache", func(n uint64, xh bool) (store, store) {
+var famLRU = family{"WideLRUCache", lruOpValue, func(n uint64, xh bool) (store, store) {
 	if xh {
 		return lruStore{cache.NewWideXHashLRUCache(hugeCapacity, remap.WithPrime(n))}, lruStore{cache.NewSingleLRUCache(hugeCapacity)}
 	}
 	return lruStore{cache.NeWideLRUCache(hugeCapacity, remap.WithPrime(n))}, lruStore{cache.NewSingleLRUCache(hugeCapacity)}
 }}
 
-var famTiny = family{"tiny.WideLRUCache", func(n uint64, xh bool) (store, store) {
+var famTiny = family{"tiny.WideLRUCache", opValue, func(n uint64, xh bool) (store, store) {
 	if xh {
 		return tinyStore{tiny.NewWideXHashLRU(hugeCapacity, remap.WithPrime(n))}, tinyStore{tiny.NewSingleLRUCache(hugeCapacity)}
 	}
@@ -1021,6 +1163,15 @@ func panicFailure(r interface{}, ctx string) *vkit.Failure {
 	return &vkit.Failure{Site: "panic", Msg: fmt.Sprintf("%s: panic: %v%s", ctx, r, b.String())}
 }
 
+// histInst is one sharded container of a history with its unsharded twin.
+type histInst struct {
+	wide, single store
+	n            uint64
+	xhash        bool
+	route        string
+	usable       []bool // per key of the pool: inside the domain of this container
+}
+
 func execHist(f family, c CaseHist) (res *vkit.Result) {
 	res = &vkit.Result{}
 	doing := "before the first call"
@@ -1034,10 +1185,20 @@ func execHist(f family, c CaseHist) (res *vkit.Result) {
 		res.Skip("shards-out-of-domain")
 		return res
 	}
+	if len(c.More) > 4 {
+		res.Skip("too-many-instances")
+		return res
+	}
+	for _, in := range c.More {
+		if in.Shards < 1 || in.Shards > maxShards {
+			res.Skip("shards-out-of-domain")
+			return res
+		}
+	}
 	// keys outside the container's domain are disabled (only hand-made or oddly
 	// shrunk cases contain them)
 	vals := make([]interface{}, len(c.Keys))
-	usable := make([]bool, len(c.Keys))
+	valid := make([]bool, len(c.Keys))
 	for i, k := range c.Keys {
 		v, ok := k.iface()
 		switch {
@@ -1045,31 +1206,70 @@ func execHist(f family, c CaseHist) (res *vkit.Result) {
 			res.Skip("unknown-key-type")
 		case !k.hashable():
 			res.Skip("unhashable-key")
-		case c.XHash && !k.xhashOK():
-			res.Skip("HitGroup-only-key-with-xxhash-routing")
 		default:
-			vals[i], usable[i] = v, true
+			vals[i], valid[i] = v, true
 		}
 	}
-	wide, single := f.mk(n, c.XHash)
-	route := "modulo"
-	if c.XHash {
-		route = "xxhash"
+	// insts[0] is the first container, insts[j] the one of More[j-1] once it is built
+	insts := make([]*histInst, 1+len(c.More))
+	build := func(j int, n uint64, xhash bool) {
+		in := &histInst{n: n, xhash: xhash, route: "modulo", usable: make([]bool, len(c.Keys))}
+		if xhash {
+			in.route = "xxhash"
+		}
+		doing = fmt.Sprintf("building container %d (%s routing, %d shards)", j, in.route, n)
+		in.wide, in.single = f.mk(n, xhash)
+		for i, k := range c.Keys {
+			in.usable[i] = valid[i] && (!xhash || k.xhashOK())
+			if valid[i] && !in.usable[i] {
+				res.Skip("HitGroup-only-key-with-xxhash-routing")
+			}
+		}
+		insts[j] = in
 	}
-	ctx := func(i int) string {
-		return fmt.Sprintf("%s routing, %d shards, after %d ops, key %v", route, n, i, c.Keys[c.Ops[i].K])
+	build(0, n, c.XHash)
+	built := 1
+	buildDue := func(i int, last bool) {
+		for j, m := range c.More {
+			if insts[j+1] == nil && (m.At <= i || last) {
+				build(j+1, m.Shards, m.XHash)
+				built++
+				if i > 0 {
+					res.Class("further-container-built-mid-history")
+				}
+			}
+		}
+	}
+	which := func(j int) string {
+		if len(c.More) == 0 {
+			return ""
+		}
+		return fmt.Sprintf("container %d of %d alive, ", j, built)
+	}
+	ctx := func(i int, j int) string {
+		in := insts[j]
+		return fmt.Sprintf("%s%s routing, %d shards, after %d ops, key %v", which(j), in.route, in.n, i, c.Keys[c.Ops[i].K])
 	}
 	usedTypes := map[string]bool{}
 	usedKeys := map[int]bool{}
+	usedInst := map[int]bool{}
 	for i, op := range c.Ops {
-		if op.K < 0 || op.K >= len(c.Keys) || !usable[op.K] {
+		buildDue(i, false)
+		j := 0
+		if op.I > 0 && op.I < len(insts) && insts[op.I] != nil {
+			j = op.I
+		}
+		in := insts[j]
+		wide, single := in.wide, in.single
+		if op.K < 0 || op.K >= len(c.Keys) || !in.usable[op.K] {
 			res.Skip("op-on-disabled-key")
 			continue
 		}
 		k := vals[op.K]
-		doing = fmt.Sprintf("%s of a %s value (int %d): %s", op.Kind, map[bool]string{true: op.VK, false: "plain"}[op.VK != ""], op.V, ctx(i))
+		doing = fmt.Sprintf("%s of a %s value (int %d): %s", op.Kind, map[bool]string{true: op.VK, false: "plain"}[op.VK != ""], op.V, ctx(i, j))
 		usedTypes[c.Keys[op.K].T] = true
 		usedKeys[op.K] = true
+		usedInst[j] = true
 		switch op.Kind {
 		case OpSet:
 			if single.Exist(k) {
@@ -1077,15 +1277,21 @@ func execHist(f family, c CaseHist) (res *vkit.Result) {
 			} else {
 				res.Class("set-new")
 			}
-			val, special := opValue(op), op.VK != ""
+			val, special := f.value(op), op.VK != ""
 			if op.VK == VKSame {
-				if cur, ok := single.Get(k); ok {
+				cur, ok, sup := single.Peek(k)
+				if !sup {
+					cur, ok = single.Get(k) // a Get does not change a map
+				}
+				if ok {
 					val = cur
 					res.Class("value=identical-to-the-stored-one")
 				}
 			}
 			if special && val == nil {
 				res.Class("value=nil")
+			} else if special && isNilPointer(val) {
+				res.Class("value=nil-pointer")
 			} else if special && !reflect.TypeOf(val).Comparable() {
 				res.Class("value=uncomparable-type")
 			} else if op.VK == VKZero {
@@ -1093,7 +1299,7 @@ func execHist(f family, c CaseHist) (res *vkit.Result) {
 			}
 			if !special || !wide.SetVal(k, val) {
 				if special {
-					res.Skip("value-kind-on-lru")
+					res.Skip("value-kind-outside-the-family")
 				}
 				wide.Set(k, op.V, op.Sz)
 				single.Set(k, op.V, op.Sz)
@@ -1104,7 +1310,7 @@ func execHist(f family, c CaseHist) (res *vkit.Result) {
 			wv, wok := wide.Get(k)
 			sv, sok := single.Get(k)
 			if wok != sok || !sameValue(wv, sv) {
-				return res.Failf(f.name+".Get", "%s: sharded Get = (%v,%v), unsharded = (%v,%v)", ctx(i), wv, wok, sv, sok)
+				return res.Failf(f.name+".Get", "%s: sharded Get = (%v,%v), unsharded = (%v,%v)", ctx(i, j), wv, wok, sv, sok)
 			}
 			if sok {
 				res.Class("get-hit")
@@ -1119,7 +1325,7 @@ func execHist(f family, c CaseHist) (res *vkit.Result) {
 			}
 			sv, sok, _ := single.Peek(k)
 			if wok != sok || !sameValue(wv, sv) {
-				return res.Failf(f.name+".Peek", "%s: sharded Peek = (%v,%v), unsharded = (%v,%v)", ctx(i), wv, wok, sv, sok)
+				return res.Failf(f.name+".Peek", "%s: sharded Peek = (%v,%v), unsharded = (%v,%v)", ctx(i, j), wv, wok, sv, sok)
 			}
 			if sok {
 				res.Class("peek-hit")
@@ -1129,7 +1335,7 @@ func execHist(f family, c CaseHist) (res *vkit.Result) {
 		case OpExist:
 			w, s := wide.Exist(k), single.Exist(k)
 			if w != s {
-				return res.Failf(f.name+".Exist", "%s: sharded Exist = %v, unsharded = %v", ctx(i), w, s)
+				return res.Failf(f.name+".Exist", "%s: sharded Exist = %v, unsharded = %v", ctx(i, j), w, s)
 			}
 			if s {
 				res.Class("exist-true")
@@ -1141,7 +1347,7 @@ func execHist(f family, c CaseHist) (res *vkit.Result) {
 			w, has := wide.Delete(k)
 			s, _ := single.Delete(k)
 			if has && w != s {
-				return res.Failf(f.name+".Delete", "%s: sharded Delete = %v, unsharded = %v", ctx(i), w, s)
+				return res.Failf(f.name+".Delete", "%s: sharded Delete = %v, unsharded = %v", ctx(i, j), w, s)
 			}
 			if present {
 				res.Class("delete-present")
@@ -1152,31 +1358,35 @@ func execHist(f family, c CaseHist) (res *vkit.Result) {
 			res.Skip("unknown-op")
 		}
 	}
-	doing = fmt.Sprintf("%s routing, %d shards, final sweep", route, n)
-	// final sweep over the whole key pool with the non-mutating observers
-	for i := range c.Keys {
-		if !usable[i] {
-			continue
-		}
-		k := vals[i]
-		if w, s := wide.Exist(k), single.Exist(k); w != s {
-			return res.Failf(f.name+"/final", "%s routing, %d shards, end of history: Exist(%v) sharded %v, unsharded %v", route, n, c.Keys[i], w, s)
-		}
-		wv, wok, sup := wide.Peek(k)
-		sv, sok, _ := single.Peek(k)
-		if !sup { // the map has no Peek; Get does not change a map
-			wv, wok = wide.Get(k)
-			sv, sok = single.Get(k)
-		}
-		if wok != sok || !sameValue(wv, sv) {
-			return res.Failf(f.name+"/final", "%s routing, %d shards, end of history: value of %v sharded (%v,%v), unsharded (%v,%v)", route, n, c.Keys[i], wv, wok, sv, sok)
+	buildDue(len(c.Ops), true)
+	// final sweep over the whole key pool with the non-mutating observers, on every container
+	for j, in := range insts {
+		doing = fmt.Sprintf("%s%s routing, %d shards, final sweep", which(j), in.route, in.n)
+		for i := range c.Keys {
+			if !in.usable[i] {
+				continue
+			}
+			k := vals[i]
+			if w, s := in.wide.Exist(k), in.single.Exist(k); w != s {
+				return res.Failf(f.name+"/final", "%s%s routing, %d shards, end of history: Exist(%v) sharded %v, unsharded %v", which(j), in.route, in.n, c.Keys[i], w, s)
+			}
+			wv, wok, sup := in.wide.Peek(k)
+			sv, sok, _ := in.single.Peek(k)
+			if !sup { // the map has no Peek; Get does not change a map
+				wv, wok = in.wide.Get(k)
+				sv, sok = in.single.Get(k)
+			}
+			if wok != sok || !sameValue(wv, sv) {
+				return res.Failf(f.name+"/final", "%s%s routing, %d shards, end of history: value of %v sharded (%v,%v), unsharded (%v,%v)", which(j), in.route, in.n, c.Keys[i], wv, wok, sv, sok)
+			}
 		}
 	}
 	// classification (uses the public index functions only to label the case)
+	first := insts[0]
 	r, _ := instances(n)
 	byShard := map[int]map[string]bool{}
 	for i := range c.Keys {
-		if !usable[i] || !usedKeys[i] {
+		if !first.usable[i] || !usedKeys[i] {
 			continue
 		}
 		var s int
@@ -1201,7 +1411,7 @@ func execHist(f family, c CaseHist) (res *vkit.Result) {
 	}
 	for i, a := range c.Keys {
 		for _, b := range c.Keys[i+1:] {
-			if isInt(a.T) && isInt(b.T) && a.T != b.T && int64(a.U) == int64(b.U) && usable[i] {
+			if isInt(a.T) && isInt(b.T) && a.T != b.T && int64(a.U) == int64(b.U) && first.usable[i] {
 				res.Class("same-number-different-int-type")
 			}
 		}
@@ -1209,7 +1419,19 @@ func execHist(f family, c CaseHist) (res *vkit.Result) {
 	for t := range usedTypes {
 		res.Class("type=" + t)
 	}
-	res.Class("routing=" + route)
+	res.Class(fmt.Sprintf("containers=%d", len(insts)))
+	if len(usedInst) >= 2 {
+		res.Class("calls-interleaved-on-two-containers")
+	}
+	for _, in := range insts[1:] {
+		if in.n != n {
+			res.Class("containers-differ-in-shard-count")
+		}
+		if in.xhash != c.XHash {
+			res.Class("containers-differ-in-routing")
+		}
+	}
+	res.Class("routing=" + first.route)
 	res.Class(shardClass(n))
 	res.NonTrivial = n >= 2 && len(usedTypes) >= 2
 	return res
@@ -1225,7 +1447,7 @@ const keyRule = "keys: all ten integer types (type extremes, 0, +-1, multiples o
 
 var PartIndex = &vkit.Part[CaseIndex]{
 	Property: Property, Name: "index",
-	Rule:  "rapid: shard count x 2-10 " + keyRule + ". Oracle: SimpleIndex / XHashIndex in [0,shards), equal on a second independently built instance (NewReMap() for 73) and on a repeated call after all other lookups; non-negative integers and Hit() values land on value mod shards; XHashIndex(k) is the part of XXHash(k) in the documented partition (computed arithmetically). Non-trivial: shards >= 2 and keys of >= 2 dynamic types; distinct = distinct case JSON",
+	Rule:  "rapid: shard count x 2-10 " + keyRule + ". Oracle: SimpleIndex / XHashIndex in [0,shards), equal on a second independently built instance (NewReMap() for 73) and on a repeated call after all other lookups; non-negative integers and Hit() values land on value mod shards; XHashIndex(k) is the part of XXHash(k) in the documented partition (computed arithmetically); the byte slices remap.ToBytes returns for the keys are kept and must still read as they did when they were returned after all later calls (twice: after the first pass and after the second routing pass). Non-trivial: shards >= 2 and keys of >= 2 dynamic types; distinct = distinct case JSON",
 	Quick: 24000, Thorough: 30000,
 	Gen: GenIndex, Exec: ExecIndex,
 }
@@ -1244,7 +1466,7 @@ var PartGrid = &vkit.Part[CaseGrid]{
 	Exec: ExecGrid,
 }
 
-const histRule = "rapid: shard count (as above, but 65521 at 5% and {509,1000,1024,4096} at 5%) x modulo|xxhash routing x pool of 2-8 hashable keys (as in part index without []byte; HitGroup-only keys only with modulo routing) x 5-40 operations Set(value 0-5, size 0-3)/Get/Exist/Delete(/Peek) on pool keys, then a final Exist+Peek/Get sweep over the pool; the sharded and the unsharded container receive the identical history, every result must be equal. Capacity 2^40 on both sides (per shard 2^40/shards+1): no eviction can occur. Non-trivial: shards >= 2 and operations on keys of >= 2 dynamic types; distinct = distinct case JSON"
+const histRule = "rapid: shard count (as above, but 65521 at 5% and {509,1000,1024,4096} at 5%) x modulo|xxhash routing x pool of 2-8 hashable keys (as in part index without []byte; HitGroup-only keys only with modulo routing) x 5-40 operations Set(value 0-5, size 0-3)/Get/Exist/Delete(/Peek) on pool keys, then a final Exist+Peek/Get sweep over the pool; the sharded and the unsharded container receive the identical history, every result must be equal. In about a third of the cases one or two further sharded containers of the same family (own shard count from the design list or 1..512, own routing, own unsharded twin) are built in the middle of the history and the calls are spread over all containers alive; the final sweep covers every container (containers are independent objects: building or using one must not change what another answers). Half of the Sets store a special value kind (see the part). Capacity 2^40 on both sides (per shard 2^40/shards+1): no eviction can occur. Non-trivial: shards >= 2 and operations on keys of >= 2 dynamic types; distinct = distinct case JSON"
 
 var PartMap = &vkit.Part[CaseHist]{
 	Property: Property, Name: "widemap",
@@ -1255,14 +1477,14 @@ var PartMap = &vkit.Part[CaseHist]{
 
 var PartLRU = &vkit.Part[CaseHist]{
 	Property: Property, Name: "widelru",
-	Rule:  "cache.NeWideLRUCache / NewWideXHashLRUCache vs cache.NewSingleLRUCache. " + histRule,
+	Rule:  "cache.NeWideLRUCache / NewWideXHashLRUCache vs cache.NewSingleLRUCache; value kinds inside the cache's domain (it calls Size() on every value, so the nil interface is outside): the sized int, a nil *T whose Size() accepts a nil receiver, zero values (sized{}, an empty struct, a pointer to a zero struct), uncomparable slice and map types implementing Value, and the identical value the key holds already - compared by identity. " + histRule,
 	Quick: 3600, Thorough: 5000,
 	Gen: GenHistLRU, Exec: ExecHistLRU,
 }
 
 var PartTiny = &vkit.Part[CaseHist]{
 	Property: Property, Name: "tinywidelru",
-	Rule:  "cache/tiny.NeWideLRU / NewWideXHashLRU vs tiny.NewSingleLRUCache. " + histRule,
+	Rule:  "cache/tiny.NeWideLRU / NewWideXHashLRU vs tiny.NewSingleLRUCache; tiny.LRU takes any interface{}: the value kinds of part widemap (nil interface, zero values, []int incl. the nil slice, map[string]int, the identical stored value), compared by identity. " + histRule,
 	Quick: 3600, Thorough: 5000,
 	Gen: GenHistLRU, Exec: ExecHistTiny,
 }
